@@ -3,7 +3,18 @@ import TmcgProofs.DkgRun
 /-
   C15, run level: "each honest party's share matches the public verification values" for whole runs
   of `runGen` in which the party finished `Generate` with `true` and nobody was reconstructed
-  (`racc = []`): `share_matches_vk_run`.
+  (`racc = []`): `share_matches_vk_run` (first test of `CheckKey()`), `checkKey_run`
+  (`genCheckKey G Pi.st = .ok true`), both from `ra_run_core`.
+
+  (A) stopped parties keep state and status (`ra_notlive_rounds`), a failing step stops a party with
+      status `run` (`ra_err_round`), fields no later round touches (`ra_runRound_field`, `racc` after
+      round 5)
+  (B) shapes of `genResolve`, `genExtractCheck`, `genExtractCollect`, `genRecNext`, `genFinish`
+      (`racc = []`), monotonicity of the extraction complaint list, the `vi` / `yi` loops
+  (C) the fields of an honest party's state the invariants of DkgAgree do not record (`Extra`, `ra_R3`)
+  (D) `ra_key`: the key check from the step results of rounds 3, 4, 5
+  (E) the run: a final status `ret true` with `racc = []` forces the path
+      genResolve = run, genExtractCheck ok, genExtractCollect with an empty reconstruction list
 -/
 namespace Tmcg.DkgP
 open Tmcg Tmcg.Powm Tmcg.Dkg Tmcg.Grp Tmcg.DkgL
@@ -548,6 +559,28 @@ theorem ra_ga_checkElement (hG : ValidGrp G) (a : List Int) (ha : ∀ c ∈ a, 0
   obtain ⟨h0, h1, -⟩ := hgb ga[k] (List.getElem_mem hk)
   exact pl_checkElement_of_val hG _ a[k] 0 h0 h1 (by rw [hv]; simp)
 
+theorem ra_yiFold (f : Nat → Int) (L : List Nat) (l0 : List Int) (i : Nat) :
+    (i ∉ L → getI (L.foldl (fun l j => l.set j (f j)) l0) i = getI l0 i) ∧
+    (i ∈ L → i < l0.length → getI (L.foldl (fun l j => l.set j (f j)) l0) i = f i) := by
+  induction L generalizing l0 with
+  | nil => exact ⟨fun _ => rfl, fun h => by cases h⟩
+  | cons k L ih =>
+    simp only [List.foldl_cons]
+    obtain ⟨a1, a2⟩ := ih (l0.set k (f k))
+    constructor
+    · intro hi
+      have hik : i ≠ k := fun e => hi (by simp [e])
+      rw [a1 (fun hh => hi (List.mem_cons_of_mem _ hh)), getI_set_ne _ _ _ _ hik]
+    · intro hi hlen
+      by_cases hiL : i ∈ L
+      · exact a2 hiL (by simpa using hlen)
+      · have hik : i = k := by
+          rcases List.mem_cons.mp hi with e | e
+          · exact e
+          · exact absurd e hiL
+        subst hik
+        rw [a1 hiL, getI_set_self _ _ _ hlen]
+
 theorem ra_key (S : Setting G n t ins) (i : Nat) (hi : i ∈ honestIdx ins) (P3 : Party GenSt)
     (s3 : S3 G n t ins i P3) (e3 : Extra G n t ins i P3.st)
     (st4 : GenSt) (I4 : Inbox) (ops4 : List Op)
@@ -558,7 +591,8 @@ theorem ra_key (S : Setting G n t ins) (i : Nat) (hi : i ∈ honestIdx ins) (P3 
     (h5 : genExtractGo G st5 (List.range st5.n) Ib st5.compl = .ok (I1, cm6))
     (hnil : sortUniq st5.n cm6 = []) (st6 : GenSt)
     (hfin : genFinish G { st5 with compl := [], racc := [], todo := [] } = .ok st6) :
-    ∃ r, fspowm G.tabG G.g st6.x G.p = .ok r ∧ r = getI st6.vi i := by
+    (∃ r, fspowm G.tabG G.g st6.x G.p = .ok r ∧ r = getI st6.vi i) ∧ st6.i = i ∧
+      fspowm G.tabG G.g (getI st6.z i) G.p = .ok (getI st6.yi i) := by
   have hG := S.hG
   have : Fact (Nat.Prime G.q.natAbs) := fact_q hG
   obtain ⟨hi1, hi2⟩ := (ag_mem_honestIdx ins i).mp hi
@@ -604,8 +638,8 @@ theorem ra_key (S : Setting G n t ins) (i : Nat) (hi : i ∈ honestIdx ins) (P3 
     rw [hnil] at h3
     cases h3
   -- round 5
-  obtain ⟨f1, f2, f3, f4, f5, f6, -, -, f9, -⟩ := ra_genFinish_shape _ _ hfin rfl
-  simp only at f1 f2 f3 f4 f5 f6 f9
+  obtain ⟨f1, f2, f3, f4, f5, f6, f7, -, f9, f10⟩ := ra_genFinish_shape _ _ hfin rfl
+  simp only at f1 f2 f3 f4 f5 f6 f7 f9 f10
   -- the key check
   have hck := checkKey_of_checks hG st6 (by rw [f3, f4]; exact hgs)
     (fun j _ => by rw [f3]; exact ag_getI_InR G.q hG.vg.q_pos _ hInR j)
@@ -637,12 +671,155 @@ theorem ra_key (S : Setting G n t ins) (i : Nat) (hi : i ∈ honestIdx ins) (P3 
         exact hsound)
     (by rw [f5, f3, f2]; exact g10)
   obtain ⟨v, r, hv, hr, hrv⟩ := hck
-  refine ⟨r, hr, ?_⟩
+  refine ⟨⟨r, hr, ?_⟩, by rw [f6, g3], ?_⟩
+  swap
+  · have ha0 : 0 < (coefA t (pinOf ins i)).length := by simp [coefA]
+    have h0 := run_gaList_get _ _ e3.ga 0 ha0
+    rw [f7, g7, e3.z, getI_set_self _ _ _ (by simp [zeros, hi1]), h0, f10, g8, e3.yi]
+    congr 1
+    have hfold := (ra_yiFold (fun j => getI (getRow A' j) 0) st4.qual (zeros n) i).2
+      (by simpa using hqi) (by simp [zeros, hi1])
+    rw [hfold]
+    have := ra_genReadA_own _ _ _ _ _ _ _ _ hra
+    rw [g3] at this
+    rw [this, hA4', getRow_set_self _ _ _ (by simp [zeroRows, hi1])]
   rw [f2, f1, f6, g3] at hv
   obtain ⟨-, -, hfold⟩ := ra_viFold (fun jt => viOf G st4.qual A' jt) st4.qual st4.vi st6.vi f9 i
   obtain ⟨v', hv', hget⟩ := hfold (by simpa using hqi) hqnd (by rw [g4, e3.vi]; simp [zeros, hi1])
   rw [hv] at hv'
   injection hv' with hv'
   rw [hrv, hget, hv']
+
+/-! ### (E) the run -/
+
+theorem ra_range_split6 (t : Nat) : List.range (6 + t + 1) = [0, 1, 2, 3, 4, 5] ++ List.range' 6 (t + 1) := by
+  rw [List.range_eq_range', show 6 + t + 1 = 6 + (t + 1) by omega, ← List.range'_append_1]
+  rfl
+
+theorem ra_runRounds_cons {σ} (steps : Nat → Nat → Step σ) (k : Nat) (L : List Nat) (ps : List (Party σ)) :
+    runRounds steps (k :: L) ps = runRounds steps L (runRound (steps k) ps) := rfl
+
+theorem ra_runGen_split (n t : Nat) (ins : List PartyIn) :
+    runGen G n t ins = runRounds (genStep G ins n t) (List.range' 6 (t + 1))
+      (runRound (genStep G ins n t 5) (runRound (genStep G ins n t 4) (runRound (genStep G ins n t 3)
+        (runRound (genStep G ins n t 2) (runRound (genStep G ins n t 1)
+          (runRound (genStep G ins n t 0) (ps0 n t ins))))))) := by
+  rw [ag_runGen_eq, ra_range_split6, ag_runRounds_append]
+  rfl
+
+theorem ra_dead_contra {σ} (steps : Nat → Nat → Step σ) (L : List Nat) (R : List (Party σ)) (i : Nat)
+    (P Pi : Party σ) (hP : R[i]? = some P) (hl : P.live = false) (hne : P.status ≠ .ret true)
+    (hPi : (runRounds steps L R)[i]? = some Pi) (hret : Pi.status = .ret true) {C : Prop} : C := by
+  obtain ⟨P', hP', -, h2⟩ := ra_notlive_rounds steps L R i P hP hl
+  rw [hPi] at hP'
+  injection hP' with hP'
+  subst hP'
+  exact absurd (h2 ▸ hret) hne
+
+set_option linter.unusedVariables false in
+/-- an honest party that finished `Generate` with `true` and without any reconstruction: both
+    comparisons of `CheckKey()` -/
+theorem ra_run_core (hG : ValidGrp G) (n t : Nat) (ins : List PartyIn) (hn : ins.length = n)
+    (ht : 2 * t < n) (hn64 : n < 2 ^ 64) (hf : n - (honestIdx ins).length ≤ t)
+    (hc : ∀ i ∈ honestIdx ins, goodCoins G t (ins.getD i ⟨[], [], {}, {}⟩))
+    (i : Nat) (hi : i ∈ honestIdx ins) (Pi : Party GenSt)
+    (hPi : (runGen G n t ins)[i]? = some Pi) (hret : Pi.status = .ret true) (hracc : Pi.st.racc = []) :
+    (∃ r, fspowm G.tabG G.g Pi.st.x G.p = .ok r ∧ r = getI Pi.st.vi i) ∧ Pi.st.i = i ∧
+      fspowm G.tabG G.g (getI Pi.st.z i) G.p = .ok (getI Pi.st.yi i) := by
+  have S : Setting G n t ins := ⟨hG, hn, hc⟩
+  obtain ⟨-, P3, hP3, s3, e3⟩ := ra_R3 S hn64 hf i hi
+  rw [ra_runGen_split] at hPi
+  generalize hR3 : runRound (genStep G ins n t 2) (runRound (genStep G ins n t 1)
+      (runRound (genStep G ins n t 0) (ps0 n t ins))) = R3 at hP3 hPi
+  rw [← ra_runRounds_cons (genStep G ins n t) 5, ← ra_runRounds_cons (genStep G ins n t) 4] at hPi
+  -- round 3
+  cases hs3 : genResolve G P3.st P3.inbox with
+  | error e =>
+    obtain ⟨P4, hP4, hst, hnl⟩ := ra_err_round (genStep G ins n t 3) R3 i P3 hP3 s3.hl e hs3
+    exact ra_dead_contra _ _ _ i P4 Pi hP4 hnl (by rw [hst]; simp) hPi hret
+  | ok r3 =>
+    obtain ⟨st4, I4, ops4, s4⟩ := r3
+    obtain ⟨-, P4, hP4, a1, a2, a3, a4, a5, a6, -⟩ :=
+      ag_honest_round (genStep G ins n t 3) R3 i P3 hP3 s3.hl _ _ _ _ hs3
+    rcases (ra_genResolve_shape _ _ _ _ _ _ hs3).1 with rfl | rfl
+    swap
+    · exact ra_dead_contra _ _ _ i P4 Pi hP4
+        (by simp [Party.live, a2]) (by rw [a2]; simp) hPi hret
+    have hl4 : HL P4 := ⟨by rw [a4]; exact s3.hl.1, a5, a3, a2⟩
+    generalize hR4 : runRound (genStep G ins n t 3) R3 = R4 at hP4 hPi
+    rw [ra_runRounds_cons] at hPi
+    have hPi4 := hPi
+    -- round 4
+    cases hs4 : genExtractCheck G P4.st P4.inbox with
+    | error e =>
+      obtain ⟨P5, hP5, hst, hnl⟩ := ra_err_round (genStep G ins n t 4) R4 i P4 hP4 hl4 e hs4
+      exact ra_dead_contra _ _ _ i P5 Pi hP5 hnl (by rw [hst]; simp) hPi4 hret
+    | ok r4 =>
+      obtain ⟨st5, I5, ops5, s5⟩ := r4
+      obtain ⟨-, P5, hP5, b1, b2, b3, b4, b5, b6, -⟩ :=
+        ag_honest_round (genStep G ins n t 4) R4 i P4 hP4 hl4 _ _ _ _ hs4
+      obtain ⟨-, -, -, -, -, hs5⟩ := ra_genExtractCheck_shape _ _ _ _ _ _ hs4
+      subst hs5
+      have hl5 : HL P5 := ⟨by rw [b4]; exact hl4.1, b5, b3, b2⟩
+      generalize hR5 : runRound (genStep G ins n t 4) R4 = R5 at hP5 hPi4
+      rw [ra_runRounds_cons] at hPi4
+      have hPi5 := hPi4
+      -- round 5
+      cases hs5 : genExtractCollect G P5.st P5.inbox with
+      | error e =>
+        obtain ⟨P6, hP6, hst, hnl⟩ := ra_err_round (genStep G ins n t 5) R5 i P5 hP5 hl5 e hs5
+        exact ra_dead_contra _ _ _ i P6 Pi hP6 hnl (by rw [hst]; simp) hPi5 hret
+      | ok r5 =>
+        obtain ⟨st6, I6, ops6, s6⟩ := r5
+        obtain ⟨-, P6, hP6, c1, c2, c3, c4, c5, c6, -⟩ :=
+          ag_honest_round (genStep G ins n t 5) R5 i P5 hP5 hl5 _ _ _ _ hs5
+        generalize hR6 : runRound (genStep G ins n t 5) R5 = R6 at hP6 hPi5
+        have hPi6 := hPi5
+        obtain ⟨I1, cm6, hgo, hcase⟩ := ra_genExtractCollect_shape _ _ _ _ _ _ hs5
+        rcases hcase with rfl | ⟨hne, hr⟩ | ⟨hnil, rfl, hfin⟩
+        · exact ra_dead_contra _ _ _ i P6 Pi hP6
+            (by simp [Party.live, c2]) (by rw [c2]; simp) hPi6 hret
+        · exfalso
+          have := ra_runRounds_racc (G := G) ins n t (List.range' 6 (t + 1))
+            (fun k hk => (List.mem_range'_1.mp hk).1) R6 i
+          rw [hPi6, hP6] at this
+          simp only [Option.map_some, Option.some.injEq] at this
+          rw [hracc, c1, hr] at this
+          exact hne this.symm
+        · obtain ⟨P', hP', f1, -⟩ := ra_notlive_rounds (genStep G ins n t) (List.range' 6 (t + 1)) R6 i P6 hP6
+            (by simp [Party.live, c2])
+          rw [hPi6] at hP'
+          injection hP' with hP'
+          subst hP'
+          rw [f1, c1]
+          rw [b1] at hgo hnil hfin
+          rw [a1] at hs4
+          exact ra_key S i hi P3 s3 e3 st4 I4 ops4 hs3 P4.inbox st5 I5 ops5 .run hs4 P5.inbox I1 cm6 hgo hnil
+            st6 hfin
+
+set_option linter.unusedVariables false in
+/-- "each honest party's share matches the public verification values" for whole runs: an honest
+    party that finished `Generate` with `true` and without any reconstruction (`racc = []`) holds a
+    share `x_i` with `g^{x_i} = v_i` — the first test of `CheckKey()` succeeds -/
+theorem share_matches_vk_run (hG : ValidGrp G) (n t : Nat) (ins : List PartyIn) (hn : ins.length = n)
+    (ht : 2 * t < n) (hn64 : n < 2 ^ 64) (hf : n - (honestIdx ins).length ≤ t)
+    (hc : ∀ i ∈ honestIdx ins, goodCoins G t (ins.getD i ⟨[], [], {}, {}⟩))
+    (i : Nat) (hi : i ∈ honestIdx ins) (Pi : Party GenSt)
+    (hPi : (runGen G n t ins)[i]? = some Pi) (hret : Pi.status = .ret true) (hracc : Pi.st.racc = []) :
+    ∃ r, fspowm G.tabG G.g Pi.st.x G.p = .ok r ∧ r = getI Pi.st.vi i :=
+  (ra_run_core hG n t ins hn ht hn64 hf hc i hi Pi hPi hret hracc).1
+
+set_option linter.unusedVariables false in
+/-- under the same hypotheses `CheckKey()` returns `true` -/
+theorem checkKey_run (hG : ValidGrp G) (n t : Nat) (ins : List PartyIn) (hn : ins.length = n)
+    (ht : 2 * t < n) (hn64 : n < 2 ^ 64) (hf : n - (honestIdx ins).length ≤ t)
+    (hc : ∀ i ∈ honestIdx ins, goodCoins G t (ins.getD i ⟨[], [], {}, {}⟩))
+    (i : Nat) (hi : i ∈ honestIdx ins) (Pi : Party GenSt)
+    (hPi : (runGen G n t ins)[i]? = some Pi) (hret : Pi.status = .ret true) (hracc : Pi.st.racc = []) :
+    genCheckKey G Pi.st = .ok true := by
+  obtain ⟨⟨r, hr, hrv⟩, hii, hz⟩ := ra_run_core hG n t ins hn ht hn64 hf hc i hi Pi hPi hret hracc
+  unfold genCheckKey
+  simp only [hr, hii, hz, hrv, bind, Except.bind, pure, Except.pure]
+  simp
 
 end Tmcg.DkgP
